@@ -827,7 +827,7 @@ func (x *vf12T) back(op string, wire []byte, toks []string, payload [][]byte) {
 	} else {
 		lines = append(lines, fmt.Sprintf("#%d e %s", x.idx, ec))
 	}
-	rp := vf12Replay(line)
+	rp := func() map[string]interface{} { return vf12Replay(line) } // lazily: a long op is written to replays/ only on failure
 	// monitor: encoding for the target and decoding again returns the same arguments
 	var b vf12Buf
 	parts := make([]vf12Arg, len(payload))
@@ -836,17 +836,17 @@ func (x *vf12T) back(op string, wire []byte, toks []string, payload [][]byte) {
 	}
 	vf12Encode(&b, parts)
 	if !bytes.Equal(b.data, wire) {
-		s.Violate(op+"-framing", "bytes written differ from the RESP framing of the arguments", rp)
+		s.Violate(op+"-framing", "bytes written differ from the RESP framing of the arguments", rp())
 	}
 	if len(out) != 1 || ec != "eof" {
-		s.Violate(op+"-roundtrip", fmt.Sprintf("decoding the written bytes gave %d commands, end %s", len(out), ec), rp)
+		s.Violate(op+"-roundtrip", fmt.Sprintf("decoding the written bytes gave %d commands, end %s", len(out), ec), rp())
 	} else {
 		ok := out[0].cmd == string(vf12Lower(payload[0])) && len(out[0].args) == len(payload)-1 && out[0].off == int64(len(wire))
 		for j := 0; ok && j < len(out[0].args); j++ {
 			ok = bytes.Equal(out[0].args[j], payload[j+1])
 		}
 		if !ok {
-			s.Violate(op+"-roundtrip", "arguments or offset after encode→decode differ", rp)
+			s.Violate(op+"-roundtrip", "arguments or offset after encode→decode differ", rp())
 		}
 	}
 	s.Op(line, lines...)
